@@ -176,26 +176,36 @@ Definition commit_item (c : cfg) (st : store) (it : item) : option (item * store
 
 (** ** finalizeBanks *)
 
-(** finalizeSingle with finalizeRead / finalizeWrite *)
+(** the `if !item.committed` block of finalizeRead / finalizeWrite *)
+Definition late_commit (s : dram) (it : item) : option (item * store) :=
+  if c_early (cf s) || i_committed it then Some (it, stor s)
+  else commit_item (cf s) (stor s) it.
+
+(** the rest of finalizeRead / finalizeWrite: CanSend, Send, Pop *)
+Definition fin_send (s : dram) (b : bank) (it' : item) (st' : store) (rest : list item)
+  : option (dram * bank * bool) :=
+  if negb (can_push (c_topcap (cf s)) (top_out s))
+  then Some (s <| stor := st' |>, b <| b_post := it' :: rest |>, false)
+  else
+    (* port.Send: msgMustBeValid *)
+    if (m_src (i_req it') =? 0) || (m_src (i_req it') =? P_TOP) then None
+    else Some (s <| stor := st' |>
+                 <| top_out := top_out s ++ [rsp_of it'] |>
+                 <| g_done := g_done s ++ [it'] |>,
+               b <| b_post := rest |>, true).
+
+Definition is_access (m : msg) : bool :=
+  match m_kind m with KRead | KWrite => true | _ => false end.
+
+(** finalizeSingle *)
 Definition fin_single (s : dram) (b : bank) : option (dram * bank * bool) :=
   match b_post b with
   | [] => Some (s, b, false)
   | it :: rest =>
-    match m_kind (i_req it) with
-    | KRead | KWrite =>
-      '(it', st') <- (if c_early (cf s) || i_committed it then Some (it, stor s)
-                      else commit_item (cf s) (stor s) it) ;;
-      if negb (can_push (c_topcap (cf s)) (top_out s))
-      then Some (s <| stor := st' |>, b <| b_post := it' :: rest |>, false)
-      else
-        (* port.Send: msgMustBeValid *)
-        if (m_src (i_req it) =? 0) || (m_src (i_req it) =? P_TOP) then None
-        else Some (s <| stor := st' |>
-                     <| top_out := top_out s ++ [rsp_of it'] |>
-                     <| g_done := g_done s ++ [it'] |>,
-                   b <| b_post := rest |>, true)
-    | _ => None
-    end
+    if is_access (i_req it) then
+      '(it', st') <- late_commit s it ;;
+      fin_send s b it' st' rest
+    else None
   end.
 
 Fixpoint fin_bank (fuel : nat) (s : dram) (b : bank) : option (dram * bank * bool) :=
@@ -352,9 +362,6 @@ Definition dispatch_pending (s : dram) : option (dram * bool) :=
   Some (s <| banks := bs |> <| pending := rem |>, p).
 
 (** ** drainTopPort *)
-Definition is_access (m : msg) : bool :=
-  match m_kind m with KRead | KWrite => true | _ => false end.
-
 Definition drain_one (s : dram) (m : msg) : option dram :=
   if negb (is_access m) then None else
   let it0 := mkItem m false [] (length (g_drained s)) in
@@ -412,6 +419,61 @@ Fixpoint run_obs (s : dram) (evs : list ev) : list obs :=
   | [] => []
   | e :: r => let '(s', o) := step s e in o :: run_obs s' r
   end.
+
+(** ** Specification vocabulary: a flat byte array to which the requests are
+    applied one after the other (used by the theorems, not by the transitions) *)
+Definition apply_req (c : cfg) (st : store) (r : msg) : store :=
+  match m_kind r with
+  | KWrite => match commit_write c st r with Some st' => st' | None => st end
+  | _ => st
+  end.
+
+(** the array after the requests [rs] *)
+Definition mem_of (c : cfg) (rs : list msg) : store := fold_left (apply_req c) rs st_zero.
+
+(** byte [x] as written by request [r], if [r] is a write that is performed,
+    covers [x] and has the byte enabled *)
+Definition byte_written (c : cfg) (r : msg) (x : N) : option N :=
+  match m_kind r with
+  | KWrite =>
+    match saddr c r with
+    | Some a =>
+      let i := N.to_nat (x - a) in
+      if oob (c_capacity c) a (N.of_nat (length (m_data r))) then None
+      else if Nat.ltb (length (m_mask r)) (length (m_data r)) && negb (Nat.eqb (length (m_mask r)) 0) then None
+      else if (a <=? x) && (x <? a + N.of_nat (length (m_data r))) &&
+              (match m_mask r with [] => true | mask => nth i mask false end)
+           then Some (nth i (m_data r) 0) else None
+    | None => None
+    end
+  | _ => None
+  end.
+
+(** the most recent write to byte [x] among [rs] (oldest first) *)
+Definition last_write (c : cfg) (rs : list msg) (x : N) : option N :=
+  fold_left (fun acc r => match byte_written c r x with Some v => Some v | None => acc end) rs None.
+
+(** response [m] answers request [r]: identifier, routing, kind *)
+Definition answers (m r : msg) : Prop :=
+  m_rspto m = m_id r /\ m_dst m = m_src r /\ m_src m = P_TOP /\
+  m_kind m = match m_kind r with KRead => KDataReady | _ => KWriteDone end.
+
+(** Every response produced so far (retrieved or still in the port) answers the
+    request at its own position [k] of the delivery log — no two responses share
+    a position, none is spurious. *)
+Definition one_rsp_each (s : dram) : Prop :=
+  exists ks, NoDup ks /\
+    Forall2 (fun m k => exists r, nth_error (g_deliv s) k = Some r /\ is_access r = true /\ answers m r)
+            (g_retr s ++ top_out s) ks.
+
+(** ... and a read response carries what a read of the flat byte array yields
+    after exactly the requests delivered before position [k]. *)
+Definition linearizable_by_arrival (s : dram) : Prop :=
+  exists ks, NoDup ks /\
+    Forall2 (fun m k => exists r, nth_error (g_deliv s) k = Some r /\ answers m r /\
+               (m_kind r = KRead ->
+                commit_read (cf s) (mem_of (cf s) (firstn k (g_deliv s))) r = Some (m_data m)))
+            (g_retr s ++ top_out s) ks.
 
 (** ** Correspondence: compare a recorded history of the implementation *)
 Definition obs_eqb (a b : obs) : bool :=
